@@ -195,6 +195,10 @@ def shrink(plan, still_fails, budget_s=120, log=None):
     for key in ("id", "root"):
         best.pop(key, None)
 
+    def expired():
+        # the loops below copy the plan for every candidate: stop them, not only the executions, when time is up
+        return time.time() - t0 > budget_s
+
     def attempt(cand):
         if time.time() - t0 > budget_s:
             return False
@@ -208,7 +212,7 @@ def shrink(plan, still_fails, budget_s=120, log=None):
         changed = False
         # drop whole lifetimes (never the last one)
         li = 0
-        while li < len(best["lifetimes"]) - 1 and len(best["lifetimes"]) > 1:
+        while li < len(best["lifetimes"]) - 1 and len(best["lifetimes"]) > 1 and not expired():
             cand = copy.deepcopy(best)
             del cand["lifetimes"][li]
             if attempt(cand):
@@ -219,9 +223,9 @@ def shrink(plan, still_fails, budget_s=120, log=None):
         # drop steps, back to front, in chunks then singly
         for li in range(len(best["lifetimes"])):
             chunk = max(1, len(best["lifetimes"][li]["steps"]) // 2)
-            while chunk >= 1:
+            while chunk >= 1 and not expired():
                 si = len(best["lifetimes"][li]["steps"]) - chunk
-                while si >= 0:
+                while si >= 0 and not expired():
                     cand = copy.deepcopy(best)
                     life = cand["lifetimes"][li]
                     removed = life["steps"][si:si + chunk]
@@ -242,7 +246,7 @@ def shrink(plan, still_fails, budget_s=120, log=None):
             # holds and faults
             for field in ("holds", "io_faults"):
                 i = 0
-                while i < len(best["lifetimes"][li].get(field, [])):
+                while i < len(best["lifetimes"][li].get(field, [])) and not expired():
                     cand = copy.deepcopy(best)
                     del cand["lifetimes"][li][field][i]
                     if attempt(cand):
